@@ -154,8 +154,11 @@ Fin(a) ==
   /\ abs'  = AbsNext(abs, a, Obs')
   /\ viol' = Viol(abs, Obs, a, abs', Obs')
 
+\* se: model height of the segment holding the stop block of the request.  A
+\* request of resolveConflict that was cut at 2000 headers ends one real block
+\* below the next checkpoint height, i.e. inside segment e+1.
 NoCtx == [mode |-> "n", hd |-> Flags({}), cp |-> Flags({}), fl |-> Flags({}),
-          qc |-> <<>>, s |-> 0, e |-> 0, i |-> 0, tb |-> 0, utip |-> 0]
+          qc |-> <<>>, s |-> 0, e |-> 0, se |-> 0, i |-> 0, tb |-> 0, utip |-> 0]
 NoQ   == [b |-> <<>>, qc |-> <<>>, cv |-> 0, ch |-> 0, init |-> 0, ni |-> 0]
 
 H(pcn, cn, bn, gd, fsn, mfn, qn) ==
@@ -228,7 +231,7 @@ Outcome(c, bn, x) ==
       X   == {y \in x..c.e : Mismatch(hdS, c.qc, y)}
   IN  IF X # {}
       THEN LET y == MinOf(X)
-               gone == FixChainCheck /\ (c.e + 1 > Len(bs) \/ bs[c.e + 1] # c.qc[c.e + 1])
+               gone == FixChainCheck /\ (c.se + 1 > Len(bs) \/ bs[c.se + 1] # c.qc[c.se + 1])
            IN
            IF gone \/ y > Len(bs) - 1    \* re-org seen / detectBadPeers: FetchHeaderByHeight fails
            THEN [pc |-> IF c.mode = "r" THEN "retry" ELSE "tipz", res |-> "err",
@@ -347,11 +350,12 @@ RStart ==
                    ELSE EndR([NoCtx EXCEPT !.mode = "r", !.cp = Flags(cp1)], bn1) IN
           /\ H(IF e.res = "good" THEN "cp" ELSE "retry", NoCtx, e.bn, e.good, fs, memF, cpq)
           /\ Fin(Act("RStart", e.res, <<>>, 0, 0, 0, 0, lastH))
-     ELSE LET s == d * CPI
-              e == IF bt - s >= W THEN s + W - 1 ELSE bt
+     ELSE LET s  == d * CPI
+              e  == IF bt - s >= W THEN s + W - 1 ELSE bt
+              se == IF bt - s >= W THEN e + 1 ELSE e
           IN
           /\ H("r_cfh", [NoCtx EXCEPT !.mode = "r", !.cp = Flags(cp1),
-                                      !.qc = SubSeq(bs, 1, e + 1), !.s = s, !.e = e],
+                                      !.qc = SubSeq(bs, 1, se + 1), !.s = s, !.e = e, !.se = se],
                bn1, <<>>, fs, memF, cpq)
           /\ Fin(Act("RStart", "q_cfh", <<>>, 0, 0, 0, s, lastH))
 
@@ -539,7 +543,7 @@ UStart ==
      THEN /\ H("tip", NoCtx, ban, good, fs, memF, cpq)
           /\ Fin(Act("UStart", "ok", <<>>, 0, 0, 0, 0, 0))
      ELSE /\ H("u_cfh", [NoCtx EXCEPT !.mode = "u", !.qc = SubSeq(bs, 1, e + 1),
-                                      !.s = s, !.e = e, !.utip = fs[Len(fs)]],
+                                      !.s = s, !.e = e, !.se = e, !.utip = fs[Len(fs)]],
                ban, good, fs, memF, cpq)
           /\ Fin(Act("UStart", "q_cfh", <<>>, 0, 0, 0, s, e))
 
